@@ -232,7 +232,7 @@ fn run(ctx: &Ctx) -> Report {
         rep.inconclusive = Some("ChaCha20 self-test failed".into());
         return rep;
     }
-    if !std::path::Path::new(cli::MLAR).exists() {
+    if !std::path::Path::new(&cli::mlar_path()).exists() {
         rep.inconclusive = Some("mlar binary missing".into());
         return rep;
     }
